@@ -110,8 +110,10 @@ def check(prog, rep, tier):
         sv = prog.method(ctx, "_set_values")
         for p in paths(prog, ctx, sv):
             v = p.fields.get((SELF, "_bloom_length"))
-            want = ("call", ("ext", "math", "ceil"), (("bin", "/", ("p", "n_bits"), ("f", SELF, "_bits_per_elm", 0)),), ())
-            if v is None or canon(v) != canon(want):
+            # ceil(bits / bits-per-cell), bits being what the same path stores as the number of bits
+            nb = [("p", "n_bits")] + ([strip_epochs(p.fields[(SELF, "_num_bits")])] if (SELF, "_num_bits") in p.fields else [])
+            wants = [canon(("call", ("ext", "math", "ceil"), (("bin", "/", x, ("f", SELF, "_bits_per_elm", 0)),), ())) for x in nb]
+            if v is None or canon(strip_epochs(v)) not in wants:
                 rep.bad("C06.bloom-addressing", f"{ctx}._set_values", f"length {nshow(v) if v else '?'}", "array length is not ceil(bits / bits-per-cell)", sv.where())
             else:
                 rep.ok("C06.bloom-addressing", "length = ceil(bits / bits_per_elm)")
